@@ -186,9 +186,10 @@ def dispatch(ctx, rule="C11.dispatch"):
         def is_name(e):
             return dotted(e) in NM or isinstance(e, ast.Attribute) and e.attr == "__name__"
         for n in walk_no_nested(f.node):
-            if isinstance(n, ast.Compare) and is_name(n.left) and isinstance(n.ops[0], ast.Eq) and \
-                    isinstance(n.comparators[0], ast.Constant):
-                handled.add(n.comparators[0].value)
+            if isinstance(n, ast.Compare) and len(n.ops) == 1 and isinstance(n.ops[0], ast.Eq):
+                for c_, o_ in ((n.comparators[0], n.left), (n.left, n.comparators[0])):
+                    if isinstance(c_, ast.Constant) and is_name(o_):
+                        handled.add(c_.value)
             if isinstance(n, ast.Compare) and is_name(n.left) and isinstance(n.ops[0], ast.In) and \
                     isinstance(n.comparators[0], (ast.Tuple, ast.List, ast.Set)):
                 handled |= {e.value for e in n.comparators[0].elts if isinstance(e, ast.Constant)}
